@@ -189,7 +189,7 @@ pub fn gen(rng: &mut Rng, idx: usize) -> Value {
     // mounts: app k+1 mounted into a random earlier app
     for b in 1..napps {
         let a = rng.below(b);
-        let n = rng.range(1, 2);
+        let n = if rng.chance(1, 8) { 0 } else { rng.range(1, 2) };     // 0: mounted at the root, `"/".By(child)`
         let mut pre = vec![]; let mut np = 0;
         for _ in 0..n { let sg = seg(rng, pabove[a] + np < 2); if s(&sg["k"]) == "P" { np += 1 } pre.push(sg) }
         let clash = apps[a].1.iter().any(|it| { let x = arr(&it["segs"]); under(x, &pre) || (s(&it["t"]) == "mount" && under(&pre, x)) });
@@ -203,6 +203,8 @@ pub fn gen(rng: &mut Rng, idx: usize) -> Value {
     let mounted: Vec<bool> = (0..napps).map(|b| b == 0 || apps.iter().any(|(_, its)| its.iter().any(|it| s(&it["t"]) == "mount" && i(&it["app"]) as usize == b + 1))).collect();
     for a in 0..napps {
         if !mounted[a] { continue }
+        // an application with a child mounted at its root has no room for routes of its own (mount prefixes are exclusive)
+        if apps[a].1.iter().any(|it| s(&it["t"]) == "mount" && arr(&it["segs"]).is_empty()) { continue }
         let nr = rng.range(1, 4);
         for _ in 0..nr {
             let n = rng.below(4);
